@@ -40,6 +40,14 @@ Theorem gen_isabs_eq : forall p : list Z, gen_isabs p = if isabs p then 1%Z else
 Proof. exact gen_isabs_eq_l. Qed.
 Print Assumptions gen_isabs_eq.
 
+(* the backwards scan `while (pos >= 0) { if (C(path[pos])) break; --pos; }` of basename and of
+   dirname (loop shape recognised by the translator) tests exactly the model's separator predicate;
+   last_sep of the model is the index of the last character satisfying it (ProofsAlg2.last_sep_spec) *)
+Theorem gen_last_sep_scan_eq :
+  (forall c : Z, gen_basename_sep c = is_sep c) /\ (forall c : Z, gen_dirname_sep c = is_sep c).
+Proof. exact (conj gen_basename_sep_eq_l gen_dirname_sep_eq_l). Qed.
+Print Assumptions gen_last_sep_scan_eq.
+
 (* ---------------- next_pow_of_2 ---------------- *)
 (* On 1 <= x <= 2^63 the result is a power of two, not below x, and the least such. *)
 Theorem npo2_least_pow2 : forall x : N, (1 <= x)%N -> (x <= 2 ^ 63)%N ->
